@@ -9,6 +9,8 @@ TABLE = {
     'C18': ('harness.c17', lambda m, tier, only: m.main('C18', tier, only)),
     'C15': ('harness.c15', lambda m, tier, only: m.main('C15', tier, only)),
     'C03': ('harness.c03', lambda m, tier, only: m.main('C03', tier, only)),
+    'C01': ('harness.c01', lambda m, tier, only: m.main('C01', tier, only)),
+    'C20': ('harness.c01', lambda m, tier, only: m.main('C20', tier, only)),
     'C07': ('harness.c07', lambda m, tier, only: m.main('C07', tier, only)),
 }
 
